@@ -170,6 +170,10 @@ type PeerConfig struct {
 }
 
 func (p PeerConfig) validate(opts peerOptions) error {
+	if p.LocalAS == 0 || p.RemoteAS == 0 {
+		// https://tools.ietf.org/html/rfc7607, see below
+		return errors.New("AS must be > 0")
+	}
 	if !opts.localAddress.IsValid() && p.RemoteAddress.IsValid() {
 		return nil
 	}
